@@ -100,10 +100,19 @@ def representable(d: t.Any, fmt: str) -> bool:
     return False
 
 
+# text that some YAML scalar resolver (1.1, 1.2, PyYAML's own, a looser one) reads as a number, a bool, a date or a merge key: the
+# writer must quote exactly what the reader would otherwise resolve - the two sides have to agree, whatever either does alone
+LOOKALIKES = ['1e5', '12e4', '0e1', '2E-3', '1E3', '-1e2', '1_000', '0o17', '017', '0x1F', '0b101', '1:30', '.5', '5.', '+1', '1.', '.inf', '-.INF', '.nan',
+              'on', 'off', 'y', 'n', 'NO', 'Yes', 'TRUE', 'Null', 'NULL', '2001-01-01', '2001-01-01 10:00:00', '<<', '=', '!!str', '&a', '*a', '12e', 'e5']
+
+
 def spice(draw: t.Any, v: t.Any, depth: int = 0) -> t.Any:
     """Replace some strings by non-ASCII / multi-line ones (validity is re-checked by the caller)."""
     if isinstance(v, str) and draw(st.booleans()):
-        return draw(st.sampled_from(HOSTILE if draw(st.integers(0, 2)) == 2 else SPICE)) + (v if draw(st.booleans()) else '')
+        k = draw(st.integers(0, 3))
+        if k == 3:
+            return draw(st.sampled_from(LOOKALIKES))
+        return draw(st.sampled_from(HOSTILE if k == 2 else SPICE)) + (v if draw(st.booleans()) else '')
     if isinstance(v, list) and depth < 5:
         return [spice(draw, x, depth + 1) for x in v]
     if isinstance(v, dict) and depth < 5:
@@ -397,5 +406,9 @@ def suites(tier: str) -> t.List[Suite]:
     leaves = 6 if big else 3
     # documents that are one scalar: enum members and instances of scalar subclasses at the root (written with and without ty=)
     roots = st.sampled_from([('enum', n) for n in ('SE', 'IE', 'IE0', 'SE0', 'FE0', 'IntE', 'StrE', 'MixedE')] + [('sub', n) for n in ('int', 'str', 'float')])
+    S_ = ('s', 'str')
+    texty = st.sampled_from([S_, ('seq', 'List', S_), ('map', 'Dict', S_, S_), ('union', 'Union', (('s', 'float'), S_)), ('s', 'any'),
+                             ('struct', (('a', S_), ('b', ('seq', 'List', S_)))), ('seq', 'List', ('union', 'Union', (('s', 'int'), S_)))])
     return [Suite('io', check, strategy=lambda: cases(gen.all_type_specs(leaves)), examples=6000 if big else 500, budget_s=480 if big else 40, render=render),
+            Suite('lookalike-strings', check, strategy=lambda: cases(texty), examples=1500 if big else 150, budget_s=90 if big else 15, render=render),
             Suite('scalar-documents', check, strategy=lambda: cases(roots), examples=600 if big else 60, budget_s=60 if big else 10, render=render)]
